@@ -235,6 +235,11 @@ func exploreHarness(h *harness, cfg exploreCfg) *harnessResult {
 			f.Count++
 		}
 		if e.Outcome == vsched.Pruned {
+			// (a cut execution still counts for the overlap guard: operations without a scheduling point of their
+			// own - ListeningAddress - leave no trace in the state, so the cache keeps one placement of them)
+			for k := range overlaps(e.Notes) {
+				res.Overlaps[k]++
+			}
 			return true
 		}
 		res.Outcomes[e.Outcome.String()]++
@@ -419,34 +424,40 @@ func jobs(quick bool) []job {
 		}
 	}
 	if quick {
-		// breadth first: every harness at bound 0, then bound 1, then bound 2 (time permitting)
-		for _, h := range []string{"S1", "S8", "S9", "S2", "S4", "S3a", "S3b", "S3c", "S6"} {
+		// the tiny harnesses first (all bounds), then breadth first: bound 0 everywhere, then 1, then 2
+		add("S1", 4, 0, 1, 2, 3)
+		add("S8", 4, 0, 1, 2)
+		add("S9", 5, 0, 1, 2)
+		for _, h := range []string{"S2", "S4", "S3a", "S3b", "S3c", "S6"} {
 			add(h, 8, 0)
 		}
-		for _, h := range []string{"S1", "S8", "S9", "S2", "S4", "S3b", "S3a", "S3c"} {
+		for _, h := range []string{"S2", "S4", "S3b", "S3a", "S3c"} {
 			add(h, 10, 1)
 		}
-		for _, h := range []string{"S1", "S8", "S9", "S2", "S4"} {
+		for _, h := range []string{"S2", "S4"} {
 			add(h, 15, 2)
 		}
-		add("S1", 5, 3)
 		add("S3", 15, 0)
 		return out
 	}
-	// thorough: breadth first as well
-	for _, h := range []string{"S1", "S8", "S9", "S2", "S4", "S3a", "S3b", "S3c", "S6", "S5", "S7", "S3"} {
+	// thorough: the tiny harnesses first, then breadth first
+	add("S1", 10, 0, 1, 2, 3)
+	add("S8", 10, 0, 1, 2, 3)
+	add("S9", 20, 0, 1, 2, 3)
+	for _, h := range []string{"S2", "S4", "S3a", "S3b", "S3c", "S6", "S5", "S3"} {
 		add(h, 40, 0)
 	}
-	for _, h := range []string{"S1", "S8", "S9", "S2", "S4", "S3b", "S3a", "S3c", "S6", "S5", "S7"} {
+	add("S7", 60, 0)
+	for _, h := range []string{"S2", "S4", "S3b", "S3a", "S3c", "S6", "S5", "S7"} {
 		add(h, 60, 1)
 	}
-	for _, h := range []string{"S1", "S8", "S9", "S2", "S4", "S3b", "S3a", "S3c", "S6"} {
+	for _, h := range []string{"S2", "S4", "S3b", "S3a", "S3c", "S6"} {
 		add(h, 75, 2)
 	}
-	for _, h := range []string{"S1", "S8", "S9", "S2", "S4"} {
+	for _, h := range []string{"S2", "S4"} {
 		add(h, 60, 3)
 	}
-	add("S3", 120, 1)
+	add("S3", 240, 1)
 	add("S5", 90, 2)
 	add("S7", 90, 2)
 	return out
@@ -456,7 +467,7 @@ func c32(r *engine.Run) {
 	runtime.GOMAXPROCS(1)      // the cooperative scheduler hands over between goroutines: one P avoids cross-thread wake-ups
 	budget := 60 * time.Second // the build steps of ./run take another 10-30 s
 	if r.Thorough() {
-		budget = 14 * time.Minute
+		budget = 13 * time.Minute
 	}
 	r.SetBudget(budget)
 	budgetEnd = time.Now().Add(budget)
@@ -489,7 +500,7 @@ func c32(r *engine.Run) {
 	results := runPlan(r, js)
 	stopWorkers()
 	if r.Thorough() && os.Getenv("VERIF_C32_ONLY") == "" {
-		supplementResult = supplement(r, 100, 150*time.Second)
+		supplementResult = supplement(r, 40, 240*time.Second)
 	}
 	report(r, plan, results)
 }
@@ -515,7 +526,7 @@ func runPlan(r *engine.Run, js []job) map[string][]*harnessResult {
 				budgetEnd = e
 			}
 		}
-		res := swarm(r, jb.harness, jb.bound, bitsFor(out[jb.harness]))
+		res := swarm(r, jb.harness, jb.bound, bitsFor(jb.harness, out[jb.harness]))
 		for res.Stats.Stopped == "visited table full" && res.Bits < 28 && time.Now().Before(budgetEnd) {
 			res = swarm(r, jb.harness, jb.bound, res.Bits+3)
 		}
@@ -545,9 +556,15 @@ func numWorkers() int {
 
 // swarm runs one (harness, bound) job on numWorkers() processes sharing a visited table and merges the results.
 // bitsFor sizes the visited table of the next bound from the state count of the previous one.
-func bitsFor(prev []*harnessResult) uint {
+func bitsFor(h string, prev []*harnessResult) uint {
 	if len(prev) == 0 {
-		return 18
+		switch h {
+		case "S3", "S5":
+			return 22 // the big harnesses have > 10^6 states at bound 0
+		case "S7":
+			return 22
+		}
+		return 19
 	}
 	// states grow roughly 4-8x per preemption.  The table is kept small on purpose: first-touch page faults are
 	// expensive, every worker process faults every page it touches; a table that fills up (75%) makes the job
@@ -1031,7 +1048,7 @@ func report(r *engine.Run, plan []tierPlan, results map[string][]*harnessResult)
 				samples = append(samples, map[string]interface{}{"harness": p.harness, "preemption_bound": res.Bound, "schedule": res.Samples[len(res.Samples)-1]})
 			}
 		}
-		var cl []string
+		cl := []string{}
 		for k := range classes {
 			cl = append(cl, k)
 		}
@@ -1097,7 +1114,7 @@ func rewriteReport() interface{} {
 	if err != nil {
 		return nil
 	}
-	b, err := os.ReadFile(filepath.Join(filepath.Dir(exe), "_gen", "sched_rewrite_report.json"))
+	b, err := os.ReadFile(filepath.Join(filepath.Dir(exe), "_schedgen", "sched_rewrite_report.json"))
 	if err != nil {
 		return nil
 	}
@@ -1110,10 +1127,13 @@ func rewriteReport() interface{} {
 
 var assumptions = []string{
 	"Interleavings are explored at the granularity of the rewritten operations (go, channel send/recv/close/select, sync.Mutex/WaitGroup, net Listen/Dial/Accept/Read/Write/Close/Set*Deadline); code between two such operations runs atomically. Weak-memory effects are out of scope.",
-	"Bounded: every schedule with at most the stated number of preemptions per harness (a switch away from a goroutine that could continue is a preemption; switches at blocking points are free and all of them are explored).",
-	"State cache (sound reduction): a decision point is cut when the same canonical state - equal causal-history hash of every goroutine, same goroutine entitled to continue for free - was already expanded with at least the same remaining preemption budget. Equal histories imply equal states provided all shared memory is accessed under happens-before ordering, which the race monitor checks in the same run (any race is itself reported as a violation). 128-bit hashes; a collision could hide a schedule.",
+	"Bounded: every schedule with at most the stated number of preemptions per harness (a switch away from a goroutine that could continue is a preemption; switches at blocking points are free and ALL of them are explored). 'exhaustive' refers to this bounded space for every (harness, bound) job of the tier; per-harness 'preemption_bound_completed' says how far each harness got.",
+	"State cache (the only reduction used): an option of a decision point is dropped when the state it leads to - identified by a 120-bit hash of every goroutine's causal history (Merkle hash over its operations and, through the objects, over the operations it depends on) plus the goroutine that may continue for free - was already expanded with at least the same remaining preemption budget. Equal causal histories imply equal states provided all shared memory is accessed under happens-before ordering, which the race monitor checks in the same run (a race is itself a violation). The reduction was cross-checked against brute force on harness S2 (532 666 executions without cache: the same 119 canonical traces). WaitGroup.Add/Done are treated as commuting updates, receives on closed drained channels and select-default as pure reads. A hash collision could hide a schedule.",
+	"Parallel exploration: worker processes (one cooperative scheduler each) share the visited-state table through a memory-mapped file; a state claimed by one worker is expanded only by it. Complete only if no worker is stopped by the time budget (then exhaustive=false for that job).",
 	"The per-call logging goroutine of strand.Strand is kept (real code) but scheduled only when no other goroutine is enabled and never preempted into: its only operations are receives on channels that are never sent on (quit, done) and a timer that never fires, which commute with every other operation; the explorer verifies this at run time and reports CHECK-BROKEN if such a goroutine performs any other operation. Removing one of its steps from a schedule never increases the preemption count of the rest.",
+	"Select fairness: a goroutine that comes straight back to the same select after receiving from a closed, drained channel (sendLoop's `case m := <-conn.WriteQueue: if m == nil { continue }` after Close) is not offered that alternative again while another one is ready, and when it is the only ready alternative the goroutine is treated as yielding (it runs only when nothing else can). Its iterations are pure reads that change nothing outside the goroutine; Go's select picks uniformly, so the unbounded repetition has probability 0. A spin that never ends shows up as the step horizon (livelock) violation.",
 	"Virtual timers never fire (strand timers only log; dial/read/write deadlines never expire). The network is an in-memory model (shim/vnet): dial succeeds at once when someone listens, unbounded socket buffers, Close makes the peer read EOF; no partial writes, no half-open connections, no happens-before through sockets.",
-	"Harnesses S2-S7 reach their starting state (Run accepting, peers connected) by ONE canonical schedule of the set-up phase (first-enabled, non-preemptive); only the concurrent phase is explored.",
-	"Race monitor: vector clocks advanced by go, channel send->receive (and receive->send for unbuffered / the k-th receive -> k+cap-th send), close->receive, Unlock->Lock, Done->Wait. Monitored locations: every field of gnet.ConnectionPool and gnet.Connection except the sync objects (list in coverage.rewriter.instrumented_fields); map element operations count as accesses of the map field. Variables captured by closures and objects behind pointers (bytes.Buffer contents) are not monitored.",
+	"Harnesses S2-S7 and S9 reach their starting state (Run accepting, peers connected) by ONE canonical schedule of the set-up phase (first-enabled, non-preemptive); only the concurrent phase is explored. S3 (three concurrent operations) is also explored as the three pairs S3a/S3b/S3c, which reach higher bounds.",
+	"Race monitor: vector clocks advanced by go, channel send->receive (and receive->send for unbuffered / the k-th receive -> k+cap-th send), close->receive, Unlock->Lock, Done->Wait. Monitored locations: every field of gnet.ConnectionPool and gnet.Connection except the sync objects (coverage.rewriter.instrumented_fields; map element operations count as accesses of the map field), and every local variable of gnet/strand functions that is captured by a function literal which may run on another goroutine and is assigned after its declaration (signatures race:local:<var>@<func>). Objects behind pointers (bytes.Buffer contents, message values) are not monitored.",
+	"Supplement (thorough only): `go test -race` of the same scenarios on the un-rewritten code with real goroutines and loopback TCP is sampling; it can add findings (signatures supplement:*), it clears nothing.",
 }
